@@ -20,6 +20,12 @@ wvars == <<par, req, stack, entered, stopped, exited>>
 N == Len(par)
 RECURSIVE Anc(_)
 Anc(n) == IF n = 0 \/ par[n] = 0 THEN {} ELSE {par[n]} \cup Anc(par[n])      \* proper ancestors
+RECURSIVE Reaches(_, _)
+Reaches(a, t) == IF a = 0 THEN FALSE ELSE IF a = t THEN TRUE ELSE Reaches(par[a], t)
+RECURSIVE ChainOK(_, _)
+ChainOK(a, os) == IF a = 0 THEN TRUE ELSE IF a \in entered /\ a \notin os THEN FALSE ELSE ChainOK(par[a], os)
+RECURSIVE UnderStopped(_)
+UnderStopped(a) == IF a = 0 THEN FALSE ELSE IF a \in stopped THEN TRUE ELSE UnderStopped(par[a])
 OnStack == {stack[i] : i \in 1..Len(stack)}
 Top == IF stack = <<>> THEN 0 ELSE stack[Len(stack)]
 
@@ -31,9 +37,8 @@ Enter(n, cont) ==
     /\ n \notin entered                             \* once
     /\ (stack = <<>> => par[n] = 0)                 \* the walk starts at the root
     \* (the ancestors and the stack are computed once per step: deep trees make them large)
-    /\ \E an \in {Anc(n)} : \E os \in {OnStack} :
-          /\ (stack # <<>> => Top \in an)           \* a child never before its parent, and only inside the node being walked
-          /\ \A a \in an : a \in entered => a \in os      \* not under a stopped node, not after its parent's Exit
+    /\ (stack # <<>> => Reaches(par[n], Top))
+    /\ \E os \in {OnStack} : ChainOK(par[n], os)
     /\ entered' = entered \cup {n}
     /\ stack' = (IF cont THEN Append(stack, n) ELSE stack)
     /\ stopped' = (IF cont THEN stopped ELSE stopped \cup {n})
@@ -48,6 +53,6 @@ Exit(n) ==
 \* Walk returned: everything is closed and every required node was entered unless it lies under a stopped node
 Done ==
     /\ stack = <<>>
-    /\ \A r \in req : r \in entered \/ (Anc(r) \cap stopped # {})
+    /\ \A r \in req : r \in entered \/ UnderStopped(par[r])
     /\ UNCHANGED wvars
 =============================================================================
